@@ -703,6 +703,44 @@ def cluster_positions_level():
     return n, bad
 
 
+def cluster_monoexons_level():
+    """GraphBasedModelConstructor.cluster_monoexons (tail positions of novel unspliced reads): as cluster_positions_level"""
+    import inspect
+    from src.graph_based_model_construction import GraphBasedModelConstructor
+    from types import SimpleNamespace
+    L = 1000
+    grid = (300, 320, 340, 360, 400)
+    takes_direction = len(inspect.signature(GraphBasedModelConstructor.cluster_monoexons).parameters) > 2
+    bad = []
+    n = 0
+    for k in (1, 2, 3):
+        for ps in itertools.combinations(grid, k):
+            for counts in itertools.product((1, 2, 3), repeat=k):
+                results = {}
+                for order in itertools.permutations(range(k)):
+                    n += 1
+                    c = GraphBasedModelConstructor.__new__(GraphBasedModelConstructor)
+                    c.params = SimpleNamespace(apa_delta=50)
+                    d_end = {}
+                    d_start = {}
+                    for i in order:
+                        d_end[ps[i]] = ["r"] * counts[i]
+                        d_start[L - ps[i]] = ["r"] * counts[i]
+                    e = c.cluster_monoexons(d_end, True) if takes_direction else c.cluster_monoexons(d_end)
+                    s_ = c.cluster_monoexons(d_start, False) if takes_direction else c.cluster_monoexons(d_start)
+                    results[order] = (tuple(sorted((p, len(v)) for p, v in e.items())), tuple(sorted((L - p, len(v)) for p, v in s_.items())))
+                vals = set(results.values())
+                if len(set(v[0] for v in vals)) > 1 or len(set(v[1] for v in vals)) > 1:
+                    o1, o2 = sorted(results)[0], next(o for o in sorted(results) if results[o] != results[sorted(results)[0]])
+                    bad.append(("order", (ps, counts), "tail positions %s of unspliced reads with counts %s: clusters %s when the positions arrive in "
+                                "order %s but %s in order %s" % (ps, counts, results[o1][0], o1, results[o2][0], o2)))
+                elif any(v[0] != v[1] for v in vals):
+                    v = next(iter(vals))
+                    bad.append(("mirror", (ps, counts), "tail positions %s with counts %s: polyA clusters %s, the polyT clusters of the mirror image "
+                                "are the mirror image of %s" % (ps, counts, v[0], v[1])))
+    return n, bad
+
+
 def thread_ends_level():
     """IntronPathProcessor.thread_ends vs thread_starts on mirrored graphs: last intron (100,200) with every subset of terminal vertices
        out of two polyA and two read-end positions, with / without a following intron, every read end on a grid, trusted or not"""
@@ -762,6 +800,11 @@ def run(ctx):
         ctx.violation("l0:tail-clusters-%s" % ("order-dependent" if kind_ == "order" else "not-mirrored"), msg,
                       {"positions": list(case_[0]), "counts": list(case_[1]), "annotated_end": case_[2]})
     ctx.note("L0 tail clusters: %d (positions, counts, annotated end, insertion order) cases through the real cluster_polya_positions" % n_cp)
+    n_cm, bad_cm = cluster_monoexons_level()
+    for kind_, case_, msg in bad_cm[:3]:
+        ctx.violation("l0:monoexon-clusters-%s" % ("order-dependent" if kind_ == "order" else "not-mirrored"), msg,
+                      {"positions": list(case_[0]), "counts": list(case_[1])})
+    ctx.note("L0 monoexon clusters: %d cases through the real cluster_monoexons" % n_cm)
     n_pv, bad_pv = polya_verification_level()
     for case_, msg in bad_pv[:3]:
         ctx.violation("l0:polya-verification-not-mirrored", msg, {"isoform": [list(x) for x in case_[0]], "read": [list(x) for x in case_[1]],
